@@ -116,8 +116,10 @@ class Cell:
         i = k
         if self.replace_missing_ref:
             m = _re_ref.match(k)
-            i = m and m.groupdict()['excel_id'] and '#NAME?' or '#REF!'
-            i = Error.errors[i]
+            m = m and m.groupdict() or {}
+            if not m.get('filename'):
+                i = Error.errors[m.get('excel_id') and '#NAME?' or '#REF!']
+            # else: name of another workbook, resolved when that is loaded.
         sh.get_nested_dicts(inp, i, default=list).append(k)
 
     def update_inputs(self, references=None):
